@@ -301,3 +301,127 @@ def run(ctx):  # noqa: F811
     _run_core(ctx)
     if not os.environ.get("VERIF_REPLAY"):
         real_homotopy_runs(ctx)
+
+
+# ---- homotopy around goal programming: what every inner solve is seeded with ---------------------------------
+def gp_homotopy_run(script, ts=0.0, d0=1.0):
+    """HomotopyMixin over GoalProgrammingMixin (two priorities) on a transcribed model; the solver is scripted:
+    solve number k returns the constant vector k+1 and succeeds iff script[k].  Returns the log of
+    (theta, priority, ok, first entry of x0)."""
+    import casadi as ca
+    import numpy as np
+    from rtctools.optimization.goal_programming_mixin import GoalProgrammingMixin
+    from rtctools.optimization.goal_programming_mixin_base import Goal
+    from rtctools.optimization.homotopy_mixin import HomotopyMixin
+    from .. import problems
+
+    spec = {"times": ["0", "1", "2"], "states": [], "algebraics": ["y", "w"], "controls": ["u"], "parameters": ["hth"],
+            "param_values": [{"hth": "0"}],
+            "residual": [["-", ["v", "y"], ["+", ["*", ["c", "3"], ["v", "hth"]], ["v", "u"]]],
+                         ["-", ["v", "w"], ["*", ["v", "y"], ["v", "hth"]]]]}
+    Base = problems.make_base(spec, (HomotopyMixin, GoalProgrammingMixin))
+    log = []
+
+    class G(Goal):
+        def __init__(self, prio, var):
+            self.priority = prio
+            self._var = var
+
+        def function(self, op, em):
+            return op.state(self._var)
+
+    class P(Base):
+        def homotopy_options(self):
+            o = super().homotopy_options()
+            o.update({"homotopy_parameter": "hth", "theta_start": ts, "delta_theta_0": d0, "delta_theta_min": 0.01})
+            return o
+
+        def path_goals(self):
+            return [G(1, "y"), G(2, "w")]
+
+        def priority_started(self, priority):
+            self._cur_prio = int(priority)
+            super().priority_started(priority)
+
+        def seed(self, ensemble_member):
+            # (NumPy 2: one-element arrays of extra variables cannot be cast in the Timeseries seed path)
+            s = super().seed(ensemble_member)
+            for k in list(s.keys()):
+                v = s[k]
+                if isinstance(v, np.ndarray) and v.shape == (1,):
+                    s[k] = float(v[0])
+            return s
+
+        def solver_options(self):
+            o = super().solver_options()
+            prob = self
+
+            def solver(name, plugin, nlp, opts):
+                class S:
+                    def __call__(self, x0, lbx, ubx, lbg, ubg):
+                        k = len(log)
+                        ok = script[k] if k < len(script) else True
+                        n = nlp["x"].shape[0]
+                        log.append({"theta": float(prob.parameters(0)["hth"]), "priority": prob._cur_prio, "ok": bool(ok),
+                                    "x0": float(np.array(x0).ravel()[0])})
+                        self._ok = ok
+                        if k > 60:
+                            raise RuntimeError("runaway loop")
+                        return {"x": ca.DM(np.full(n, float(k + 1))), "f": ca.DM(0.0), "lam_g": ca.DM.zeros(nlp["g"].shape[0]),
+                                "lam_x": ca.DM.zeros(n)}
+
+                    def stats(self):
+                        return {"success": self._ok, "return_status": "Solve_Succeeded" if self._ok else "Infeasible_Problem_Detected"}
+                return S()
+            o["casadi_solver"] = solver
+            return o
+
+    p = P()
+    try:
+        ret = p.optimize()
+    except RuntimeError:
+        ret = None
+    return ret, log
+
+
+def gp_homotopy_cases(ctx):
+    """every solve of priority 1 after the first homotopy step starts from the last accepted solution (the final
+    priority of the last successful step), every later priority from the priority before it"""
+    scripts = [[True, True, True, False], [True, True, False], [True, True, True, False, True, False], [True, True, True, True],
+               [True, True, True, False, False]]
+    for _ in range(ctx.n(3, 40)):
+        scripts.append([ctx.rng.random() < 0.7 for _ in range(8)])
+    for sc in scripts:
+        sc = [True, True] + sc[2:]          # the first homotopy step succeeds
+        try:
+            ret, log = gp_homotopy_run(sc)
+        except Exception as e:  # noqa: BLE001
+            ctx.violation("homotopy/gp-run-exception", {"script": sc, "error": "%s: %s" % (type(e).__name__, str(e)[:200])}, no_input=True,
+                          what="homotopy over goal programming raised %s" % type(e).__name__)
+            continue
+        ctx.case_done(core.fingerprint(["gp-homotopy", sc[:len(log)]]), not all(sc[:len(log)]))
+        ctx.count("gp_homotopy_runs")
+        accepted, step_first, prev_ok = None, 0, True
+        for k, e in enumerate(log):
+            if e["priority"] == 1:
+                want = 0.0 if accepted is None else accepted
+                step_ok = True
+            else:
+                want = float(k)             # the solve before it returned the vector k
+            if abs(e["x0"] - want) > 1e-9:
+                ctx.violation("homotopy/gp-seed", {"script": sc, "log": log, "solve": k, "expected_start": want},
+                              what="solve %d (theta %s, priority %d) started from the solution tagged %s, expected %s (last accepted solution%s)" % (
+                                  k, e["theta"], e["priority"], e["x0"], want, "" if e["priority"] == 1 else " of the previous priority"))
+                break
+            step_ok = step_ok and e["ok"]
+            if e["priority"] == 2 and step_ok:
+                accepted = float(k + 1)
+
+
+_run_core_gp = run
+
+
+def run(ctx):  # noqa: F811
+    _run_core_gp(ctx)
+    if not os.environ.get("VERIF_REPLAY"):
+        gp_homotopy_cases(ctx)
